@@ -9,7 +9,8 @@
 (*   Fam = "list"  explicit families: texts across the number / string /     *)
 (*                 white-space grammar, revivers, stringify over a value     *)
 (*                 domain with replacers, property lists, gaps, toJSON,      *)
-(*                 wrappers, cycles, and the two round trips                 *)
+(*                 wrappers, cycles, the two round trips, and the Go-side    *)
+(*                 marshalling of the values (fam "go")                      *)
 EXTENDS NumText, Json, TLC, SequencesExt, Randomization, C11Str
 CONSTANTS OpenDev, Fam, NSel, Deep
 VARIABLES blk, cs
@@ -136,6 +137,35 @@ EscStrings ==
     \cup {<<92, 110>>, <<92, 92, 110>>, <<92, 34>>, <<92, 92, 34>>, <<92, 98>>, <<92, 47>>, <<92, 120, 52, 49>>, <<92, 117>>, <<92, 117, 48, 48>>,
           <<92, 60>>, <<92, 62>>, <<92, 38>>, <<92, 92, 60>>, <<38, 108, 116, 59>>, <<92, 117, 48, 48, 51, 99, 92, 117, 48, 48, 51, 101>>}
 EscValues == UNION {{StrV(e), O1(Ka, StrV(e)), O1(e, IntV(1)), A2(StrV(e), StrV(e)), O2(e, StrV(e), e \o <<33>>, Null)} : e \in EscStrings}
+
+(* Go-side marshalling (JSONSpec!GoMarshal): the Value is handed to Go and    *)
+(* serialised there.  String code-unit classes, unit by unit: every C0        *)
+(* control, the characters Quote escapes, DEL and C1 controls, format and     *)
+(* separator characters, non-characters, private use, the ends of the BMP     *)
+(* ranges, astral characters of every general kind (printable, format/tag,    *)
+(* non-character, private use, the last code point) and unpaired surrogates   *)
+(* (high, low, reversed, before a pair); each alone and between letters.      *)
+GoCtl == {<<u>> : u \in 0..31}
+GoBmp == {<<u>> : u \in {34, 92, 47, 39, 60, 62, 38, 127, 128, 133, 159, 160, 173, 1536, 8203, 8232, 8233,
+                         55295, 57344, 63743, 64976, 65279, 65533, 65534, 65535}}
+GoAstral == {<<55296, 56320>>, <<55348, 56606>>, <<55357, 56832>>, <<56128, 56321>>, <<55359, 57343>>, <<56192, 56320>>, <<56319, 57343>>}
+GoLone == {<<55296>>, <<56319>>, <<56320>>, <<57343>>, <<56320, 55296>>, <<55296, 55296, 56320>>}
+GoUnitStrs == GoCtl \cup GoBmp \cup GoAstral \cup GoLone
+GoStrs == GoUnitStrs \cup {<<97>> \o u \o <<98>> : u \in GoUnitStrs}
+(* primitives reach Value.MarshalJSON itself; every way into encoding/json    *)
+GoPrims ==
+    {Null, Undef, BoolV(TRUE), BoolV(FALSE)}
+    \cup {NumV(n) : n \in NumAtoms \cup (IF Deep THEN NumAtomsDeep ELSE {})}
+    \cup {StrV(s) : s \in StrAtoms \cup GoStrs \cup (IF Deep THEN StrAtomsDeep ELSE {})}
+GoEscPrims == {StrV(e) : e \in EscLike \cup (IF Deep THEN EscStrings ELSE {})}
+(* objects go through Object.MarshalJSON (15.12.3 on the runtime)             *)
+GoObjs ==
+    Wraps \cup {PlainFn} \cup Depth1 \cup Depth2 \cup ToJSONVals \cup CycleVals
+    \cup UNION {{A1(StrV(u)), O1(u, StrV(u))} : u \in GoUnitStrs}
+    \cup {S!Wrap("String", StrV(u)) : u \in GoCtl \cup GoLone}
+GoPrimModes == <<"value", "marshal", "pointer", "map", "slice", "struct", "nested", "export">>
+GoObjModes == <<"object", "marshal", "pointer", "map", "slice", "struct", "nested", "export">>
+GoCase(v, mode) == [fam |-> "go", v |-> v, mode |-> mode]
 
 NoRp == [k |-> "none"]
 NoSp == [t |-> "absent"]
@@ -264,10 +294,30 @@ SpecialCases ==
      Special("(function(){var p={toJSON:{x:1}};var o=Object.create(p);o.a=1;return o})()", O1(Ka, IntV(1)), NoSp),              \* inherited non-callable toJSON
      Special("(function(){var p={toJSON:function(){return 9}};var o=Object.create(p);o.a=1;return [o]})()", A1(IntV(9)), NoSp)}    \* inherited method: [[Get]]
 
+(* the Go-side family: primitives x every way into encoding/json; objects    *)
+(* through Value.MarshalJSON and one more way each (all ways when Deep);      *)
+(* Export + json.Marshal for what JSON can represent (and undefined: nil)     *)
+GoExportable(v) == v.t = "undef" \/ Representable(v)
+GoModeOk(v, m) == CASE m = "export" -> GoExportable(v) [] m = "object" -> S!IsObjectType(v) [] OTHER -> TRUE
+GoObjSeq == IF Fam # "list" THEN <<>> ELSE SetToSeq(GoObjs)          \* (constant definitions are evaluated at start-up of every run)
+GoRot(v, i) == LET m == GoObjModes[(i % Len(GoObjModes)) + 1] IN IF GoModeOk(v, m) THEN m ELSE "object"
+GoCases ==
+    IF Fam # "list" THEN {} ELSE
+    {GoCase(v, GoPrimModes[m]) : v \in GoPrims, m \in 1..Len(GoPrimModes)}
+    \cup {GoCase(v, m) : v \in GoEscPrims, m \in {"value", "map"}}
+    \cup {GoCase(v, "value") : v \in GoObjs}
+    \cup {GoCase(GoObjSeq[i], GoRot(GoObjSeq[i], i)) : i \in 1..Len(GoObjSeq)}
+    \cup {GoCase(c, "export") : c \in UNION {{A1(StrV(u)), O1(u, StrV(u))} : u \in GoUnitStrs}}
+    \cup (IF Deep THEN {GoCase(v, GoObjModes[m]) : v \in GoObjs, m \in 1..Len(GoObjModes)}
+                        \cup {GoCase(NumV(n), m) : n \in NumExtremes, m \in {"value", "map"}}      \* their decimal text costs seconds
+           ELSE {})
+GoCasesOk == {c \in GoCases : GoModeOk(c.v, c.mode)}
+
 (* TLC evaluates constant definitions once per worker at start-up: the      *)
 (* explicit families are built only for the run that uses them               *)
 ListCases ==
     IF Fam # "list" THEN {} ELSE
+    GoCasesOk \cup
     {ParseCase(t, NoRv) : t \in SeqSet(ExtraTexts) \cup SeqSet(ExtraHeavyTexts) \cup SeqSet(SurrTexts) \cup SeqSet(BaseTextsMore) \cup SeqSet(ToJSONTexts)}
     \cup {ParseCase(t, [k |-> "id"]) : t \in SeqSet(ToJSONTexts)}
     \cup {ParseCase(t, rv) : t \in SeqSet(LenTexts), rv \in LenRevivers}
@@ -349,6 +399,7 @@ Js(c) ==
       [] c.fam = "special" -> <<"JSON.stringify(" \o c.src>> \o (IF c.sp.t = "absent" THEN <<>> ELSE <<",null,">> \o JsOf(c.sp, 0)) \o <<")">>
       [] c.fam = "rt1" -> <<"JSON.parse(">> \o JsStringify(c.v, NoRp, NoSp) \o <<")">>
       [] c.fam = "rt2" -> <<"JSON.stringify(JSON.parse(", Lit(StrV(c.text)), "))">>
+      [] c.fam = "go" -> JsOf(c.v, 0)                      \* the value only: the harness marshals it on the Go side (c.mode)
 
 -----------------------------------------------------------------------------
 (* expected outcomes: the set the specification permits (a singleton for the *)
@@ -382,6 +433,7 @@ Strict(c) ==
       [] c.fam = "special" -> S!SOutcome(S!Stringify(c.v, NoRp, c.sp))
       [] c.fam = "rt1" -> Rt1Strict(c)
       [] c.fam = "rt2" -> Rt2Strict(c)
+      [] c.fam = "go" -> S!SOutcome(S!GoMarshal(c.v, c.mode))
 Deviating(c) ==
     CASE c.fam = "parse" -> L!ParseOutcomes(c.text, SpecRv(c.rv))
       [] c.fam = "parsearg" -> L!ParseOutcomes(ArgText(c.arg), NoRv)
@@ -389,6 +441,7 @@ Deviating(c) ==
       [] c.fam = "special" -> {L!SOutcome(L!Stringify(c.v, NoRp, c.sp))}
       [] c.fam = "rt1" -> Rt1Dev(c)
       [] c.fam = "rt2" -> Rt2Dev(c)
+      [] c.fam = "go" -> {L!SOutcome(L!GoMarshal(c.v, c.mode))} \cup {S!SOutcome(a) : a \in S!GoMarshalNonFiniteAlt(c.v)}
 
 -----------------------------------------------------------------------------
 (* single-character mutations of a text: code 0 = original, 1 = deletion at  *)
